@@ -182,6 +182,40 @@ func MinLen(v ssa.Value, blk *ssa.BasicBlock) (int64, []string) {
 	return min, why
 }
 
+// MaxLen collects an upper bound on len(v) from the dominating branch conditions (len == k, len != k on the false edge,
+// len < k, ...).  The compiler's listing only names checks it could NOT decide; a check it proved to FAIL (index 1 behind
+// `len == 1`) is compiled into an unconditional panic and is not listed, so such sites are found with this bound.
+func MaxLen(v ssa.Value, blk *ssa.BasicBlock) (int64, bool) {
+	ub, have := int64(0), false
+	for _, c := range flow.DomConds(blk) {
+		pr, ok := flow.AsIntPred(c.V, c.Pol)
+		if !ok {
+			continue
+		}
+		call, ok := flow.StripConv(pr.X).(*ssa.Call)
+		if !ok {
+			continue
+		}
+		bi, ok := call.Call.Value.(*ssa.Builtin)
+		if !ok || bi.Name() != "len" || len(call.Call.Args) != 1 || call.Call.Args[0] != v {
+			continue
+		}
+		// the largest n in [0, K+2] for which the predicate holds, provided it fails beyond
+		if pr.Holds(pr.K+2) || pr.Holds(pr.K+1000) {
+			continue // unbounded above
+		}
+		for n := pr.K + 2; n >= 0; n-- {
+			if pr.Holds(n) {
+				if !have || n < ub {
+					ub, have = n, true
+				}
+				break
+			}
+		}
+	}
+	return ub, have
+}
+
 // Need returns the minimal length the site needs (index i needs i+1, s[l:h] needs max(l,h))
 // and the indexed value, or ok=false when the indices are not constants.
 func Need(in ssa.Instruction) (v ssa.Value, need int64, ok bool) {
